@@ -20,7 +20,7 @@ WORK = os.path.join(ROOT, '.work')
 EVID = os.environ.get('VERIF_EVIDENCE_DIR') or os.path.join(ROOT, 'evidence')  # override: self-validation runs on mutated trees
 REPLAYS = os.path.join(os.environ['VERIF_EVIDENCE_DIR'], 'replays') if os.environ.get('VERIF_EVIDENCE_DIR') else os.path.join(ROOT, 'replays')
 PY = sys.executable
-CASE_WATCHDOG_S = 60
+CASE_WATCHDOG_S = 120
 MAX_KEEP = 12
 
 
@@ -61,7 +61,7 @@ _progress = {'n': -1, 'extensions': 0}
 
 def _alarm(_s, _f):
     # a program that is still producing trace records is alive, only slow (a runaway program on its way to the record cap - the
-    # library's bookkeeping is quadratic in the history size): it gets up to ten more periods. No new record in a whole period means
+    # library's bookkeeping is quadratic in the history size): it gets up to twelve more periods. No new record in a whole period means
     # the process is stuck in a synchronous loop - that is what the watchdog is for.
     try:
         from . import engine
@@ -69,7 +69,7 @@ def _alarm(_s, _f):
     except Exception:
         run = None
     n = run.n if run is not None else -1
-    if run is not None and n != _progress['n'] and _progress['extensions'] < 10:
+    if run is not None and n != _progress['n'] and _progress['extensions'] < 12:
         _progress['n'] = n
         _progress['extensions'] += 1
         signal.alarm(CASE_WATCHDOG_S)
